@@ -20,7 +20,7 @@ BATCH = 4
 CASE_TIMEOUT = 400
 RULE = ("seeded stress workloads per entry point x {full memory, cut-off} x "
         "{T=0, T>0}; the contract evaluates every returned state; bound "
-        "100*epsrel (+ accumulated truncation scale for Gibbs); positivity "
+        "100*epsrel*(1+spread^2 sum|eta|) (x (n_steps/5)^2 for Gibbs, x sites for chains); positivity "
         "only without memory cut-off. Non-trivial iff the bath changes the "
         "state (strong coupling R>=0.5 or dissipation present); distinct = "
         "(entry point, memory, T class, state kind, d/dims, unique)")
@@ -84,7 +84,9 @@ def run_case(case):
     phys.epsrel = epsrel
     phys.positive = not cut
     phys.c = 100.0
+    base_c = [100.0]
     rm = 0.0
+    scales = [1.0]
 
     def coupling(dd):
         o = rng.normal(size=dd)
@@ -93,8 +95,12 @@ def run_case(case):
         # push towards the conditioning limit in half of the cases
         o, r, scale = lib.guard_coupling(p, o * (3.0 if i % 2 else 1.0), dt,
                                          nsteps, kmax, tau, rng)
+        # same tolerance policy as C01/C02: the requested tolerance times the
+        # magnitude of the influence exponents (1 + spread^2 sum|eta|)
+        scales.append(scale)
         v = gen.haar_unitary(rng, dd) if i % 3 == 1 else np.eye(dd)
         oper = v @ np.diag(o) @ v.conj().T
+        phys.c = base_c[0] * max(scales)
         return (oper + oper.conj().T) / 2, r
 
     params = lib.tempo_params(dt, epsrel, kmax, tau)
@@ -166,7 +172,7 @@ def run_case(case):
         teps = float(rng.choice([1e-6, 1e-7, 1e-8]))
         phys.epsrel = max(epsrel, teps)
         # truncation of the chain MPS: errors accumulate over bonds and steps
-        phys.c = 100.0 * n
+        phys.c = 100.0 * n * max(scales)
         record = list(range(n)) + [(0, 1), (0, n - 1)]
         oqupy.PtTebd(oqupy.AugmentedMPS(rhos), chain, pts,
                      oqupy.PtTebdParameters(dt=dt, epsrel=teps,
